@@ -187,6 +187,12 @@ def run(ctx):
                 return NotImplemented
             ev.io_fn = device
             ev.bind = {ldir: list(listing), magic_g: magic}
+            # the same directory through os.scandir: entries with .name / .path (iterated directly or inside `with`)
+            from ..evalr import _Obj
+            sdir = tm.app("os.scandir", [datadir], ty=tm.ANY)
+            entries = [_Obj("os", "DirEntry", {"name": nm_, "path": T("pathjoin", (datadir, nm_), tm.STR)}) for nm_ in listing]
+            ev.bind[sdir] = entries
+            ev.bind[T("enter", (sdir,))] = entries
             try:
                 sm = ev.run(fi, {"blocks": list(blocks), "datadir": datadir})
             finally:
